@@ -76,18 +76,19 @@ func ruleEntry(c *Ctx, a *udpAnchors) {
 			return isP && pa.Parent() == add && pa.Type().String() == "string"
 		})
 		c.CheckAt("ENTRY", short(add)+":entry-reported-with-client-address-and-key-id", call, okA && okK, "the association is reported with something other than Add's client address and key id parameters")
-		// the metrics object returned is the one stored in the entry and used for removal
-		for _, c2 := range eng.Calls(add) {
-			if sc, ok := c2.(*ssa.Call); ok && callTo(c, sc, a.m.set) {
-				okM := false
-				for _, ar := range sc.Call.Args {
-					if g, _ := p.AllFrom(ar, eng.Plain, func(v ssa.Value) bool { return v == ssa.Value(call) }); g {
-						okM = true
-					}
-				}
-				c.CheckAt("ENTRY", short(add)+":entry-keeps-its-metrics-object", sc, okM, "the entry does not keep the metrics object returned for this association")
+		// the metrics object returned is the one stored in the entry (and used for removal): every construction of an entry that
+		// Add's region performs stores it in the entry's metrics field
+		nEntry, okM := 0, true
+		for _, st := range p.FieldStores(a.m.connT, a.m.metField) {
+			if !st.Fresh || st.Val == nil {
+				continue
+			}
+			nEntry++
+			if !p.AnyFrom(st.Val, deepF, func(v ssa.Value) bool { return v == ssa.Value(call) }) {
+				okM = false
 			}
 		}
+		c.CheckAt("ENTRY", short(add)+":entry-keeps-its-metrics-object", call, okM && nEntry > 0, "the entry does not keep the metrics object returned for this association")
 	}
 	// at the call site the id is the id of this datagram's key search
 	for i, ad := range a.adds {
